@@ -76,8 +76,15 @@ func runLogoutStream(c *Ctx, n int) {
 				}
 			case 4:
 				if isResp {
-					rs.StatusCode = sp2(pick(r, "urn:oasis:names:tc:SAML:2.0:status:PartialLogout", "", "urn:oasis:names:tc:SAML:2.0:status:Requester"))
+					rs.StatusCode = sp2(pick(r, "urn:oasis:names:tc:SAML:2.0:status:PartialLogout", "", "urn:oasis:names:tc:SAML:2.0:status:Requester", "urn:oasis:names:tc:SAML:2.0:status:Responder"))
 					faults = append(faults, "status-not-success")
+					// second-level codes below a failing top-level code do not turn it into a success
+					switch r.Intn(3) {
+					case 0:
+						rs.StatusInner = []string{"urn:oasis:names:tc:SAML:2.0:status:PartialLogout"}
+					case 1:
+						rs.StatusInner = []string{"urn:oasis:names:tc:SAML:2.0:status:RequestDenied", "urn:oasis:names:tc:SAML:2.0:status:Success"}
+					}
 				}
 			default:
 				if isResp {
